@@ -140,6 +140,18 @@ Definition no_overdue_b (x : state) : bool :=
                        | _, ODep _ _ _ => true
                        | _, ONo => false end) (s_trans x).
 
+(* an idle or just-delivered AGV claims nothing *)
+Definition idle_unclaimed_b (x : state) : bool :=
+  forallb (fun t => match t_st t with
+                    | TIdle | TOutage => opt_nat_eqb (t_job t) None
+                    | _ => true end) (s_trans x).
+
+(* current values of the stochastic time objects are never negative (max(0, .) in the implementation) *)
+Definition sto_ok_b (x : state) : bool := forallb (fun p => 0 <=? fst p) (s_sto x).
+
+(* the clock invariant of C12 *)
+Definition clock_b (x : state) : bool := no_overdue_b x && idle_unclaimed_b x && sto_ok_b x.
+
 (* recorded times never lie in the future, except the planned end of the running operation *)
 Definition past_b (x : state) : bool :=
   forallb (fun o => match o_st o with
@@ -204,8 +216,8 @@ Definition agv_phase_b (x : state) : bool :=
 Definition clause_vector (x : state) : list bool :=
   [ placement_b x; loc_b x; mach_hold_b x; agv_hold_b x; claims_b x; capacity_b x; flags_b x;
     feasible_b x; no_overdue_b x; past_b x; busy_op_b x; proc_inner_b x; output_done_b x;
-    outages_b x; outage_nonneg_b x; agv_phase_b x ].
+    outages_b x; outage_nonneg_b x; agv_phase_b x; idle_unclaimed_b x; sto_ok_b x ].
 
 End WithInst.
 
-Definition clause_names : list nat := seq0 16.
+Definition clause_names : list nat := seq0 18.
